@@ -1,4 +1,5 @@
 import TsVerif.C03.Cover
+import TsVerif.C03.Rename
 import Std.Data.HashSet
 /-!
 # C03 — untrusted search procedures
@@ -159,5 +160,51 @@ def computeAnn (tbl : Table) (P : List Prod) (allow : Allow) (start : Nat) : Ann
   let sets := annLoop tbl P allow ann0 sets0 (startItems.map fun it => (1, it)) 400000
   { ann0 with items := sets.map (·.toList) }
 
+
+/-- a rule without its FIELD / ALIAS / PREC wrappers -/
+def coreRule : Rule → Rule
+  | .field _ a => coreRule a
+  | .alias _ _ a => coreRule a
+  | .prec _ _ a => coreRule a
+  | r => r
+
+/-- the rules referenced under an alias of the value `v` -/
+partial def aliasedRules (v : String) : Rule → List String
+  | .alias v' _ a => (match coreRule a with | .sym y => if v' == v then [y] else [] | _ => []) ++ aliasedRules v a
+  | .seq a b => aliasedRules v a ++ aliasedRules v b
+  | .choice a b => aliasedRules v a ++ aliasedRules v b
+  | .rep a => aliasedRules v a
+  | .rep1 a => aliasedRules v a
+  | .field _ a => aliasedRules v a
+  | .prec _ _ a => aliasedRules v a
+  | _ => []
+
+/-- which rule a non-terminal of the table stands for when its name is not a rule's: a rule that is
+referenced under an alias of that name (`extract_default_aliases` renamed it); untrusted — the
+validations on `renameNT tbl (findRen g tbl)` decide -/
+def findRen (g : Grammar) (tbl : Table) : List (Nat × String) :=
+  let nts := (List.range tbl.symbolCount).filter fun y => y ≥ tbl.tokenCount
+  let todo := nts.filter fun y => (g.body (tbl.symName y)).isNone
+  let candsOf := fun (y : Nat) =>
+    let n := tbl.symName y
+    (g.rules.map (·.1)).filter fun x =>
+      (g.rules.any fun e => (aliasedRules n e.2).contains x) &&
+      match g.body x with
+      | some b => !isTerminalBody b && !(nts.any fun z => tbl.symName z == x)
+      | none => false
+  -- symbols with a single remaining candidate first; an assigned rule is no candidate for another symbol
+  let pass := fun (acc : List (Nat × String)) =>
+    todo.foldl (fun acc y =>
+      if (acc.lookup y).isSome then acc else
+      match (candsOf y).filter fun x => !(acc.any fun e => e.2 == x) with
+      | [x] => (y, x) :: acc
+      | _ => acc) acc
+  let forced := (List.range (todo.length + 1)).foldl (fun acc _ => pass acc) []
+  -- the rest: several symbols of one name take the remaining candidates in symbol order
+  todo.foldl (fun acc y =>
+    if (acc.lookup y).isSome then acc else
+    match (candsOf y).filter fun x => !(acc.any fun e => e.2 == x) with
+    | x :: _ => (y, x) :: acc
+    | [] => acc) forced
 
 end TsVerif.C03
